@@ -66,3 +66,28 @@ Theorem udp_send_failure_reported e ue st ca cip pkt ent pt payload dst port :
     /\ alookup N.eqb ca (u_nat st') <> None.
 Proof. exact (udp_send_failure_lemma e ue st ca cip pkt ent pt payload dst port). Qed.
 Print Assumptions udp_send_failure_reported.
+
+(* ---- the Prometheus collectors (prometheus/metrics.go), model theories/Collector.v ------------- *)
+From OSS Require Import theories.Collector theories.CollectorProofs.
+
+(* every gathered counter is the sum, over the whole call log, of what each call adds to it *)
+Theorem collector_total calls q : value (vals (crun calls)) q = total_from cinit0 calls q.
+Proof. exact (collector_total_lemma calls q). Qed.
+Print Assumptions collector_total.
+
+(* gathered data_bytes{proto="udp"} per key and direction = the positive byte counts of the reports
+   made on the associations that were added with that key (c>p / p>t from AddPacketFromClient,
+   p<t / c<p from AddPacketFromTarget); no other call, and no report of another key, contributes *)
+Theorem gathered_udp_bytes calls k fromclient first :
+  value (vals (crun calls)) (data "udp" (udir fromclient first) k) =
+  sum_reports k fromclient first (ureports [] calls).
+Proof. exact (gathered_udp_bytes_lemma calls k fromclient first). Qed.
+Print Assumptions gathered_udp_bytes.
+
+(* nat_entries_added / nat_entries_removed count the AddUDPNatEntry / RemoveNatEntry calls, so their
+   difference is the number of live associations *)
+Theorem gathered_nat_entries calls :
+  value (vals (crun calls)) ["udp_nat_entries_added"%string] = zcount is_uadd calls /\
+  value (vals (crun calls)) ["udp_nat_entries_removed"%string] = zcount is_uremove calls.
+Proof. exact (nat_entries_lemma calls). Qed.
+Print Assumptions gathered_nat_entries.
